@@ -1,0 +1,27 @@
+//go:build verif
+
+package vestingsc
+
+import (
+	chainstate "0chain.net/chaincore/chain/state"
+)
+
+// Thin wrappers for the verification harness (governance settings, C48). No logic.
+
+// VerifGovConfigJSON returns the stored config node as JSON (config.Encode).
+func VerifGovConfigJSON(balances chainstate.StateContextI) ([]byte, error) {
+	conf, err := (&VestingSmartContract{}).getConfig(balances)
+	if err != nil {
+		return nil, err
+	}
+	return conf.Encode(), nil
+}
+
+// VerifGovValidateStored runs config.validate on the stored config node.
+func VerifGovValidateStored(balances chainstate.StateContextI) error {
+	conf, err := (&VestingSmartContract{}).getConfig(balances)
+	if err != nil {
+		return err
+	}
+	return conf.validate()
+}
